@@ -31,6 +31,11 @@ CASES = [
     ("for-single", "for int i in [ <0> : <1> ] <2> ;", "FOR_STMT", [("ForStmt", "block_or_stmt", (2, ";1"))]),
     ("range2", "for int i in [ <0> : <1> ] { }", "RANGE_EXPR", [("RangeExpr", "start_step_stop", (0, None, 1))]),
     ("range3", "for int i in [ <0> : <1> : <2> ] { }", "RANGE_EXPR", [("RangeExpr", "start_step_stop", (0, 1, 2))]),
+    # generated accessors (oq3_syntax::ast::generated::nodes) of the same roles
+    ("range3-generated", "for int i in [ <0> : <1> : <2> ] { }", "RANGE_EXPR", [("RangeExpr", "thestart", 0), ("RangeExpr", "step", 1), ("RangeExpr", "stop", 2)]),
+    ("gate-def-generated", "gate g ( s , t ) u , v , w { }", "GATE", [("Gate", "qubit_args", ("within", "u", "w", "t"))]),
+    ("while-generated", "while ( <0> ) { <1> ; }", "WHILE_STMT", [("WhileStmt", "loop_body", ("{1", "}1"))]),
+    ("assign-from-indexed-generated", "x = y [ <0> ] ;", "ASSIGNMENT_STMT", [("AssignmentStmt", "indexed_identifier", None)]),
     ("assign", "x = <0> ;", "ASSIGNMENT_STMT", [("AssignmentStmt", "identifier", ("x", "x")), ("AssignmentStmt", "rhs", 0)]),
     # an indexed target: there is no plain-identifier target, whatever the value is (an identifier value must not be taken for it)
     ("assign-indexed", "x [ <0> ] = <1> ;", "ASSIGNMENT_STMT", [("AssignmentStmt", "rhs", 1), ("AssignmentStmt", "identifier", None), ("AssignmentStmt", "indexed_identifier", ("x", "]1"))]),
@@ -62,7 +67,9 @@ class H(semh.Base):
         return self.task[0]
 
     def site(self, outcome, detail):
-        return semh.Base.site(self, outcome, detail)[:220] + " @" + self.task[0].split(":")[0]
+        s_ = re.sub(r"\(?\b\d+\.\.\d+\)?", "N..M", semh.Base.site(self, outcome, detail))      # character positions depend on the atoms chosen
+        s_ = re.sub(r"char \d+", "char N", s_)
+        return s_[:220] + " @" + self.task[0].split(":")[0]
 
     def run(self, ex):
         fam = self.fam; kit = fam.kit
